@@ -25,7 +25,9 @@ Record ccall := { cc_ov : option override; cc_req : req; cc_now : Z }.
 Inductive cres := RTok (t : token) (verified_lin : bool) | RErr | RPanic | RNone.
 
 Record conc_case := {
-  k_cfg : config; k_file : pem_file; k_calls : list ccall; k_sched : list sev;
+  k_cfg : config; k_file : pem_file;
+  k_created : bool;              (* newJWTFinalizer succeeded *)
+  k_calls : list ccall; k_sched : list sev;
   k_res : list cres;             (* per call *)
   k_span : list (nat * nat);     (* per call: positions in the schedule of its first step and of the step it returned at *)
   k_jwks : list (list jwk) }.    (* the answers to the SJwks events, in order *)
@@ -106,6 +108,7 @@ Definition conc_prop (c : conc_case) : bool :=
   match (if ttl_valid (k_cfg c) then spec_accept (c_keyid (k_cfg c)) (k_file c) else None) with
   | None => true
   | Some cur =>
+      negb (k_created c) ||
       let trace := spec_trace (c_keyid (k_cfg c)) cur (k_sched c) in
       calls_prop (k_cfg c) trace (k_calls c) (k_res c) (k_span c) && jwks_along (k_cfg c) trace (k_sched c) (k_jwks c)
   end.
@@ -114,18 +117,18 @@ Definition conc_corr (impl : fixes) (c : conc_case) : bool :=
   match create (k_cfg c) (k_file c), model_calls (k_cfg c) (k_calls c) with
   | Ok w, Some calls =>
       let g := crun impl (k_cfg c) (k_sched c) (cinit (w_st w) calls) in
-      list_eqb cres_eqb (map (model_res (k_cfg c)) (g_ths g)) (k_res c)
+      k_created c && list_eqb cres_eqb (map (model_res (k_cfg c)) (g_ths g)) (k_res c)
       && list_eqb (list_eqb jwk_eqb) (rev (g_jwks g)) (k_jwks c)
   | Ok _, None => false
-  | _, _ => is_nil (k_res c) && is_nil (k_jwks c)
+  | _, _ => negb (k_created c) && is_nil (k_res c) && is_nil (k_jwks c)
   end.
 
 Definition check_conc (impl : fixes) (c : conc_case) : verdict :=
   {| v_corr := conc_corr impl c; v_prop := conc_prop c; v_guards := [] |}.
 
 Definition CL ov q now := {| cc_ov := ov; cc_req := q; cc_now := now |}.
-Definition CC cfg f calls sched res span jw :=
-  {| k_cfg := cfg; k_file := f; k_calls := calls; k_sched := sched; k_res := res; k_span := span; k_jwks := jw |}.
+Definition CC cfg f cr calls sched res span jw :=
+  {| k_cfg := cfg; k_file := f; k_created := cr; k_calls := calls; k_sched := sched; k_res := res; k_span := span; k_jwks := jw |}.
 
 (* ------------------------------------------------------------------ exec-skeleton stream *)
 
